@@ -20,13 +20,33 @@ def declare(spec):
     spec.handlers['circus.util:tornado_sleep'] = h_tornado_sleep
     spec.handlers['tornado.gen:multi'] = h_gen_multi
     spec.handlers['tornado.gen:sleep'] = h_tornado_sleep
+    from pyvc.tys import BOOL
+    spec.ghost('excl', BOOL)     # task-local: the running operation owns the exclusive slot (C10)
+    PROT = ("same_field('Watcher.processes', 'Watcher._status', 'Watcher.numprocesses', 'Watcher.singleton', "
+            "'Watcher.respawn', 'Watcher.max_age', 'Watcher.warmup_delay', 'Watcher.graceful_timeout', "
+            "'Watcher.stop_signal', 'Watcher.stop_children', 'Watcher.hooks', 'Watcher.ignore_hook_failure', "
+            "'Watcher.evpub_socket', 'Watcher.arbiter', 'Watcher.on_demand', 'Watcher.max_retry', "
+            "'Watcher.name', 'Watcher.priority', 'Watcher.autostart', 'Watcher.stream_redirector', "
+            "'Arbiter.watchers', 'Arbiter._watchers_names', 'Arbiter._stopping', 'Arbiter.warmup_delay')")
+    spec.assumptions['R-EXCL'] = (
+        'while a task owns the exclusive slot (ghost excl), no other task writes the protected watcher / '
+        'arbiter fields: they are written only by synchronized operations (C10 frame scans) and '
+        'synchronized operations are refused while the slot is held (C10 wrapper contract)')
+    spec.consts['$PROT'] = PROT
     spec.relies['kill'] = Rely(
         'kill',
         stable=['process.stopping', 'process.klog', 'process.naps', 'process.alive_seen', 'Process.pid',
-                'process.closed'],
+                'process.closed', 'excl', 'Process.wid', 'Process.started'],
         facts=['implies(not (process.pid in old(K_alive)), not (process.pid in K_alive))',
-               'wf_procs_pid(self)'],
+               'wf_procs_pid(self)', 'implies(excl, %s)' % PROT],
         note='suspension inside Watcher.kill_process(process): the instance that set process.stopping owns '
              'the per-process ghost fields until it clears the flag (every other kill_process(process) '
              'returns at the stopping test; frame-scan stopping-writers); a dead pid stays dead '
-             '(A-PIDREUSE); everything else may change arbitrarily, subject to the global invariant')
+             '(A-PIDREUSE); protected fields are stable when the caller owns the slot (R-EXCL); '
+             'everything else may change arbitrarily, subject to the global invariant')
+    spec.relies['held'] = Rely(
+        'held',
+        stable=['excl', 'Process.pid', 'Process.wid', 'Process.started'],
+        facts=['wf_procs_pid(self)', 'implies(excl, %s)' % PROT],
+        note='suspension of an operation that may own the slot: protected fields stable under excl; kernel, '
+             'logs, clocks and per-process termination state may change')
